@@ -16,7 +16,7 @@ func baseOps() map[string]int {
 	return map[string]int{"load": 10, "load-low": 3, "load-up": 3, "load-hold": 1, "complete": 3, "occupy": 1, "cordon": 1, "uncordon": 1,
 		"force-taint": 1, "unforce": 0, "ext-taint-time": 1, "ext-taint-odd": 1, "foreign-taint": 1, "annotate": 1, "annotate-empty": 0,
 		"unannotate": 1, "asg-bounds": 1, "pending-big": 1, "foreign-pod": 1, "resize-pod": 1, "resize-nodes": 0, "drain-group": 0,
-		"asg-max-down": 1, "refresh-fails": 1, "extra-node": 1}
+		"asg-max-down": 1, "refresh-fails": 1, "extra-node": 1, "pod-terminating": 1}
 }
 
 func with(m map[string]int, kv ...interface{}) map[string]int {
